@@ -39,6 +39,7 @@ def _as_rows(pts, rows):
 def _elev_cases(draw, tier):
     c = draw(_polygon())
     c["t"] = draw(st.integers(1, 4))
+    c["frac"] = draw(st.integers(0, 7)) == 0          # coordinates given as exact rationals (fractions.Fraction): numbers, but neither float nor int
     return c
 
 
@@ -51,6 +52,9 @@ def check_elevate(case, ctx):
     ctx.nt(case["homog"], "homogeneous")
     ctx.nt(rows > 0, "rows")
     ctx.label("integer-coordinates", isinstance(pts[0][0], int))
+    if case.get("frac") and not rows:
+        cp = [[F(c) for c in q] for q in pts]
+        ctx.label("rational-number-coordinates")
     out = helpers.degree_elevation(p, cp, num=t)
     ctx.check(len(out) == p + t + 1, "elevated-count", "degree_elevation(%d, num=%d) returned %d control points" % (p, t, len(out)))
     for j in range(max(rows, 1)):
